@@ -39,3 +39,120 @@ def c05_xcheck(pid, tier, seed, work):
              extra={"xcheck_pairs": n}, harness_errors=errs[:5])
     r["_wall"] = time.time() - t
     return r
+
+
+def c18_xcheck(pid, tier, seed, work):
+    """CPython judges both the SUT outputs and the Rust references dumped by `hv c18`."""
+    import base64
+    import binascii
+    import datetime
+    import email.utils
+    import hashlib
+    import urllib.parse
+    t = time.time()
+    path = os.path.join(work, "xcheck", "C18.tsv")
+    if not os.path.exists(path):
+        return _res(0, 0, "", [], harness_errors=["no cross-check file from hv c18"])
+    errs = []      # reference vs CPython: harness errors
+    viols = {}     # SUT vs CPython
+    n = 0
+    counts = {}
+    distinct = set()
+    samples = []
+    epoch = datetime.datetime(1970, 1, 1, tzinfo=datetime.timezone.utc)
+
+    def fmt(ts):
+        return email.utils.format_datetime(epoch + datetime.timedelta(seconds=ts), usegmt=True)
+
+    def v(sig, what, ex):
+        if sig not in viols:
+            viols[sig] = {"sig": sig, "what": what, "count": 0, "example": ex, "replay": []}
+        viols[sig]["count"] += 1
+
+    def py_b64d(s):
+        try:
+            txt = s.decode("ascii")
+        except UnicodeDecodeError:
+            return None
+        if len(txt) % 4 != 0:
+            return None
+        try:
+            return base64.b64decode(txt, validate=True)
+        except (binascii.Error, ValueError):
+            return None
+
+    for line in open(path):
+        f = line.rstrip("\n").split("\t")
+        k = f[0]
+        n += 1
+        counts[k] = counts.get(k, 0) + 1
+        distinct.add((k, f[1]))
+        if k == "sha1":
+            m = bytes.fromhex(f[1])
+            h = hashlib.sha1(m).hexdigest()
+            if f[3] != h:
+                errs.append("reference SHA-1 disagrees with hashlib on a %d-byte message" % len(m))
+            if f[2] != h:
+                v("C18/sha1:wrong-digest", "SHA-1 differs from hashlib.sha1 on a %d-byte message" % len(m), {"input_hex": f[1][:200], "got": f[2], "hashlib": h})
+        elif k == "b64e":
+            m = bytes.fromhex(f[1])
+            e = base64.b64encode(m).decode()
+            if f[3] != e:
+                errs.append("reference Base64 disagrees with base64.b64encode on %s" % f[1])
+            if f[2] != e:
+                v("C18/base64-encode:wrong", "Base64 differs from base64.b64encode", {"input_hex": f[1], "got": f[2], "cpython": e})
+        elif k == "b64d":
+            s = bytes.fromhex(f[1])
+            py = py_b64d(s)
+            ref_ok = f[3].startswith("ok:")
+            # CPython (validate=True) also discards non-canonical trailing bits silently, like the reference
+            if (py is not None) != ref_ok or (ref_ok and py.hex() != f[3][3:]):
+                # one documented difference: CPython accepts excess padding such as 'AA==' only at the end; same as reference
+                errs.append("reference Base64 decoder disagrees with base64.b64decode(validate=True) on %r: ref=%s py=%r" % (s, f[3], py))
+        elif k == "pcte":
+            m = bytes.fromhex(f[1])
+            e = urllib.parse.quote_from_bytes(m, safe="")
+            if f[2] != e:
+                v("C18/percent-encode:wrong", "percent-encoding differs from urllib.parse.quote(safe='')", {"input_hex": f[1], "got": f[2], "cpython": e})
+        elif k == "pctd":
+            s = bytes.fromhex(f[1])
+            if f[3].startswith("ok:"):
+                e = urllib.parse.unquote_to_bytes(s)
+                if e.hex() != f[3][3:]:
+                    errs.append("reference percent-decoder disagrees with urllib.parse.unquote_to_bytes on %r" % s)
+        elif k == "date":
+            ts = int(f[1])
+            e = fmt(ts)
+            if f[3] != e:
+                errs.append("reference IMF-fixdate disagrees with email.utils.format_datetime on %d: %s vs %s" % (ts, f[3], e))
+            if f[2] != e:
+                v("C18/date:wrong", "HTTP date differs from email.utils.format_datetime", {"timestamp": ts, "got": f[2], "cpython": e})
+        elif k == "blk_date":
+            lo, hi, sod = int(f[1]), int(f[2]), int(f[3])
+            h = hashlib.sha1()
+            d = epoch + datetime.timedelta(days=lo, seconds=sod)
+            one = datetime.timedelta(days=1)
+            for _ in range(lo, hi):
+                h.update(email.utils.format_datetime(d, usegmt=True).encode() + b"\n")
+                d += one
+            n += hi - lo
+            counts["dates_in_blocks"] = counts.get("dates_in_blocks", 0) + hi - lo
+            if h.hexdigest() != f[4]:
+                v("C18/date:wrong", "block digest of HTTP dates for days %d..%d at second %d differs from CPython" % (lo, hi, sod), {"block": [lo, hi, sod]})
+        elif k == "blk_b64e3":
+            a = int(f[1])
+            h = hashlib.sha1()
+            for b in range(256):
+                h.update(b"".join(base64.b64encode(bytes((a, b, c))) for c in range(256)))
+            n += 65536
+            counts["b64_groups_in_blocks"] = counts.get("b64_groups_in_blocks", 0) + 65536
+            if h.hexdigest() != f[2]:
+                v("C18/base64-encode:wrong", "block digest of Base64 of all 3-byte groups with first byte %d differs from CPython" % a, {"first_byte": a})
+        if len(samples) < 3 and k in ("date", "b64d", "sha1") and not any(x["kind"] == k for x in samples):
+            samples.append({"kind": k, "fields": [x[:80] for x in f[1:]]})
+    os.remove(path)
+    extra = {"xcheck_lines_%s" % k: c for k, c in counts.items()}
+    r = _res(n, len(distinct), "CPython hashlib/base64/urllib.parse/datetime+email.utils recompute every dumped case (%d lines; thorough adds SHA-1 block digests over all days and all 2^24 Base64 groups)" % n,
+             samples, extra=extra, harness_errors=errs[:5], violations=list(viols.values()))
+    r["_wall"] = time.time() - t
+    return r
